@@ -57,6 +57,9 @@ package mice
 
 // NewDecoder: the record size is read from the stream (8 bytes) and refused
 // if zero or above the caller's limit, before any record is read.
+// miDecoderFor(rd, r, digest, enc): rd is the decoder NewDecoder returned for
+// reading r under the digest header value `digest` (definitional).
+//@ uf miDecoderFor(io.Reader, io.Reader, string, string) bool
 //@ func (Encoding).NewDecoder
 //@   props C15 C14 C10
 //@   returns (rd, err)
@@ -65,6 +68,7 @@ package mice
 //@   ensures[record-size-limits] err == nil ==> typeis(rd, *decoder) && (unboxed(rd, *decoder).nextProof != nil ==> 1 <= unboxed(rd, *decoder).recordSize && unboxed(rd, *decoder).recordSize <= maxRecordSize && decReady(unboxed(rd, *decoder)))
 //@   ensures[consumed-eight] err == nil ==> spos(r) == old(spos(r)) + 8 || spos(r) == old(spos(r))
 //@   ensures[new-decoder] err == nil ==> fresh(unboxed(rd, *decoder))
+//@   ensures[is-the-decoder-for,witness] err == nil ==> miDecoderFor(rd, r, digestHeaderValue, enc)
 //@   ensures[refuses-only-out-of-range-sizes] err != nil && spos(r) == old(spos(r)) + 8 ==> beValue(sdata(r), old(spos(r)), 8) == 0 || beValue(sdata(r), old(spos(r)), 8) > maxRecordSize
 //@   ensures spos(r) >= old(spos(r)) && spos(r) <= send(r)
 //@   assigns spos(r)
